@@ -80,6 +80,27 @@ def check_after_multiple_times(case):
     else:
         raise Violation('C20.older-system', 'a system replaced by a later run of simulate_multiple_times was allowed to '
                         'simulate')
+    # runs carried out in a WORKER process create their systems there: in this process the caller's own system is
+    # still the most recently created one
+    import multiprocessing
+    if multiprocessing.current_process().daemon:
+        return          # pool workers of the harness cannot start processes of their own; phase "after-worker-runs" does
+    own = System()
+    mine = PartHandler('mine')
+    back = System.simulate_multiple_times(_small_run, 2, 1, 2)
+    after = PartHandler('after-the-worker-runs')
+    for a in (mine, after):
+        if not any(x is a for x in own._assets):
+            raise Violation('C20.registered-latest', f'after simulate_multiple_times(.., 2, max_processes=1) the asset "{a.name}" '
+                            f'is not registered with the system most recently created in this process')
+    if any(any(x is after for x in s_._assets) for s_ in back):
+        raise Violation('C20.registered-latest', 'an asset created after the worker runs registered with a system that came '
+                        'back from a worker process')
+    try:
+        own.simulate(1, print_summary=False)
+    except RuntimeError as e:
+        raise Violation('C20.latest-system', f'the system most recently created in this process is refused by simulate() '
+                        f'after simulate_multiple_times ran in a worker process: {e}')
 
 
 class PlantSystem(System):
@@ -220,7 +241,9 @@ def run_twin(case, late):
         d = (total - (T if between else 0)) * f if i < len(parts) - 1 else total - done
         s.simulate(d, print_summary=False)      # continuing never re-initialises (the library asserts on a second call)
         done += d
-    # ---- registration
+    # ---- registration (registering an asset again is a no-op: still listed once, not initialised again)
+    System.add_asset(o['P'])
+    System.add_asset(o['K'])
     assets = s._assets
     for r in ASSET_ROLES:
         n = sum(1 for a in assets if a is o[r])
